@@ -130,7 +130,7 @@ func (a *API) onRecordingDeleteSegment(ctx *gin.Context) {
 	}
 
 	segmentPath := recordstore.Path{
-		Start: start,
+		Start: start.Local(),
 	}.Encode(pathFormat)
 
 	segmentPath, err = absolutePathInside(commonPath, segmentPath)
